@@ -47,6 +47,7 @@ ASSUMPTIONS = [
     "net.ParseIP by contract (the driver passes its answers for the host and for the bracket-stripped host)",
     "strings.EqualFold = ASCII case folding on strings of equal byte length when the constraint is ASCII",
     "completeness is demanded (predicate) exactly when some chain is valid in the sense of the text AND satisfies the fail-closed extras (issuer EKU, raw DNSName constraints) AND whose links can be found by key identifier (every AuthorityKeyId on the chain equals the issuer's SubjectKeyId - RFC 5280 4.2.1.1 -, or is absent, or is carried by no certificate of the issuer's pool, so that the search falls back to the issuer name: exactly the condition under which findVerifiedParents tries the issuer, PathSpec.keyid_link_ok); chains that are valid only through a misleading key id (the driver plants them in ~3% of PKIs and the D26 topology has one) are outside the premise and only counted (classify: text-valid-chain-rejected-by-premise)",
+    "waivers are visible in generator_stats as V:err:...:WAIVED-statement-valid-chain-outside-premise(issuer-EKU | raw-DNSName-constraint | misleading-key-id); for every other rejection the error CLASS is checked against the order of Verify's checks (python) and against the model's error number",
     "the 100-signature-check budget is NOT waived: a valid chain missed because of it fails the predicate and is the known finding verify-sigcheck-budget",
     "soundness: roots are v3 certificates, no certificate carries the Entrust SPKI blob, identity index is injective on roots vs leaf",
 ]
@@ -324,6 +325,37 @@ def analyse(f):
     return r
 
 
+def _no_eku_invalid(q, chain):
+    """like why_invalid, but without the usage condition and with the raw DNSName constraints on every certificate:
+    what the chain builder itself demands of a candidate chain"""
+    saved = q.usages
+    q.usages = [0]                      # anyExtendedKeyUsage: the usage condition is vacuous
+    try:
+        w = why_invalid(q, chain)
+    finally:
+        q.usages = saved
+    if w is None and not all(raw_dns_ok(q, c) for c in chain):
+        w = "raw DNSName constraint"
+    return w
+
+
+def expected_error_classes(q):
+    """the error classes Verify may answer with, from the order of its checks (independent of the Coq model)"""
+    leaf = q.leaf
+    if leaf.crit:
+        return {"critical"}
+    if not (leaf.nb <= q.now <= leaf.na) or not raw_dns_ok(q, leaf):
+        return {"invalid"}
+    if q.host and not host_matches(leaf, q.host, q.pip1, q.pip2):
+        return {"hostname"}
+    cands = [ch for ch in enumerate_chains(q) if _no_eku_invalid(q, ch) is None]
+    if any(keyids_wf(q, ch) for ch in cands):
+        return {"usage", "limit"}       # candidate chains exist: only the usage filter (or the budget) can reject
+    if cands:
+        return {"unknownauthority", "invalid", "limit", "usage"}
+    return {"unknownauthority", "invalid", "limit"}
+
+
 def nontrivial(f):
     if f[0] == "V":
         return not (f[5] == "-" and f[6] == "-")
@@ -346,8 +378,13 @@ def _classify(f, io):
     if good:
         return "V:err:%s:valid-chain-missed(search-bound %s)" % (tag, ">100" if bound > 100 else "<=100")
     if text_valid and not good:
-        why = "keyids" if any(strict_extras(q, ch) for ch in text_valid) else "extras"
-        return "V:err:%s:text-valid-chain-outside-premise(%s)" % (tag, why)
+        if any(strict_extras(q, ch) for ch in text_valid):
+            why = "misleading-key-id"
+        elif any(eku_ok(ch, q.usages) for ch in text_valid):
+            why = "raw-DNSName-constraint"          # empty / IP host name with a constrained certificate, or the leaf's own subtrees
+        else:
+            why = "issuer-EKU"                       # nested extended key usage
+        return "V:err:%s:WAIVED-statement-valid-chain-outside-premise(%s)" % (tag, why)
     return "V:err:" + tag
 
 
@@ -371,6 +408,9 @@ def _predicate(f, io):
             if good:
                 return False, ("a valid chain exists (%s) but Verify returned an error (%s)"
                                % (".".join(str(c.idx) for c in good[0]), io[1] if len(io) > 1 else ""))
+            want = expected_error_classes(q)
+            if len(io) > 1 and io[1] not in want:
+                return False, "Verify rejected with error class %s, expected %s" % (io[1], "/".join(sorted(want)))
             return True, ""
         return False, "unexpected observation " + io[0]
     if op == "H":
@@ -415,6 +455,11 @@ def _budget_finding(f, io):
 FINDING_MATCHERS = {}   # filled at the end of the file (guarded)
 
 
+# Verify_model's error numbers and the error classes of the implementation they stand for
+_MODEL_ERR_CLASSES = {"1": {"critical"}, "2": {"invalid"}, "3": {"hostname"},
+                      "4": {"unknownauthority", "invalid", "limit"}, "5": {"usage"}}
+
+
 def _same(f, io, mo):
     """projected observables only: ok/error class and, when ok, the SET of chains"""
     if f[0] == "V":
@@ -422,6 +467,8 @@ def _same(f, io, mo):
             return False
         if io[0] == "ok":
             return set(io[1].split(",")) == set(mo[1].split(","))
+        if io[0] == "err" and len(io) > 1 and len(mo) > 1:
+            return io[1] in _MODEL_ERR_CLASSES.get(mo[1], {io[1]})
         return True
     return io[:2] == mo[:2]
 
